@@ -580,7 +580,9 @@ def store2(ex, st, base, sl_, v, node, base_node):
         used('Q[:, k1, k2, :] = X on a 4-D array -> requires X of shape (Q.shape[0], Q.shape[3]); contents not interpreted')
         ex.oblige(st, 'call-pre', 'block-assignment-shape-matches',
                   z3.And(Z(val.shape[0]) == Z(b.shape[0]), Z(val.shape[1]) == Z(b.shape[3])) if isinstance(val, VArr) and val.ndim == 2 else False, node)
-        st.vars[base_node.id] = VArr(b.shape, None, None, b.dtype)
+        new = VArr(b.shape, None, None, b.dtype)
+        new.init = getattr(b, 'init', None)               # provenance: how the array was allocated (np.zeros / np.empty)
+        st.vars[base_node.id] = new
         st.ghost['block_stores'] = st.ghost.get('block_stores', []) + [(i1, i2)]
         return
     return _orig_store2(ex, st, base, sl_, v, node, base_node)
@@ -754,7 +756,7 @@ T.GROUPS['als3'] = [
     A([a_, m_, n_, k_], z3.And(d0(unvec3(a_, m_, n_, k_)) == m_, d1(unvec3(a_, m_, n_, k_)) == n_, d2(unvec3(a_, m_, n_, k_)) == k_),
       [unvec3(a_, m_, n_, k_)]),
     A([G_], z3.And(rows(vec3(G_)) == size3(G_), cols(vec3(G_)) == 1), [vec3(G_)]),
-    A([a_, m_, n_, k_], z3.Implies(z3.And(m_ >= 1, n_ >= 1, k_ >= 1, rows(a_) == T.mul_canon(m_, n_, k_), cols(a_) == 1),
+    A([a_, m_, n_, k_], z3.Implies(z3.And(m_ >= 1, n_ >= 1, k_ >= 1, rows(a_) == T.mulI(T.mulI(m_, n_), k_), cols(a_) == 1),
                                    vec3(unvec3(a_, m_, n_, k_)) == a_), [unvec3(a_, m_, n_, k_)]),
     A([G_], unvec3(vec3(G_), d0(G_), d1(G_), d2(G_)) == G_, [vec3(G_)]),
     A([G_, H_], z3.And(d0(cadd(G_, H_)) == d0(G_), d1(cadd(G_, H_)) == d1(G_), d2(cadd(G_, H_)) == d2(G_)), [cadd(G_, H_)]),
@@ -812,7 +814,10 @@ def _exec_compare(self, st, op, l, r, node):
                  'quotient is nan (0 / 0, RuntimeWarning only) and the comparison is False   [IEEE 754, A-REAL otherwise]')
             c = to_real(self.need_num(st, r, node))
             return z3.And(l.den > 0, l.num < c * l.den)
-        raise Unsupported(f'comparison of np.abs(.).max() values other than `ratio < number` (line {node.lineno})')
+        if isinstance(l, VMaxAbs) and not isinstance(r, (VMaxAbs, VRatio)) and isinstance(op, (ast.Lt, ast.LtE, ast.Gt, ast.GtE)):
+            c = to_real(self.need_num(st, r, node))
+            return {ast.Lt: l.term < c, ast.LtE: l.term <= c, ast.Gt: l.term > c, ast.GtE: l.term >= c}[type(op)]
+        raise Unsupported(f'comparison of np.abs(.).max() values other than `ratio < number` / `value < number` (line {node.lineno})')
     return _orig_exec_compare(self, st, op, l, r, node)
 
 
@@ -970,3 +975,91 @@ def arr_binop3(ex, st, op, l, r, node):
 
 
 M.arr_binop = arr_binop3
+
+
+# ----------------------------------------------------------------------------------------------
+# pieces for the sweep part of als_func.als_func (gated): range objects as values, list(seq), elementwise conditional comprehension
+
+@model('range')
+def m_range_value(ex, st, args, kwargs, node):
+    """`rng = range(...)`: the iteration object as a value (`for k in rng` then iterates it)."""
+    it = M.iteration(ex, st, node, node)
+    if it.concrete is not None:
+        return it
+    base = it.bind
+    used('range(...) object bound to a name -> iterated later by `for k in <name>`')
+    return M.Iteration(n=it.n, bind=lambda *a: base(None, None, a[-1]))
+
+
+@model('list')
+def m_list_copy(ex, st, args, kwargs, node):
+    v = st.deref(args[0]) if len(args) == 1 and not kwargs else None
+    if isinstance(v, VSeq):
+        used('list(seq) -> a new list with the same elements')
+        return st.alloc(VSeq(v.arr, v.n, v.wrap, v.tag, getattr(v, 'unwrap', None)))
+    if isinstance(v, VList):
+        return st.alloc(VList(list(v.items)))
+    raise Unsupported('list(...) of this value')
+
+
+_orig_listcomp = M.listcomp
+
+
+def listcomp(ex, st, e):
+    """[A if test else B for x in seq] with cores A, B: element j is A_j where test_j holds and B_j elsewhere (the stock model
+    would decide the test once for the generic element, i.e. for all elements alike)."""
+    if _on(ex) and len(e.generators) == 1 and not e.generators[0].ifs and isinstance(e.elt, ast.IfExp) and ex._pure(e.elt):
+        g = e.generators[0]
+        it = M.iteration(ex, st, g.iter, e)
+        if it.concrete is None:
+            saved = dict(st.vars)
+            try:
+                j = ex.fresh_int('lc')
+                guard = z3.And(j >= 0, j < it.n)
+                mark = len(st.pc)
+                st.pc.append(guard)
+                ex.assign(g.target, it.bind(ex, st, j), st)
+                c = ex.truth(st, ex.ev(e.elt.test, st), e)
+                if isinstance(c, bool):
+                    raise Unsupported('conditional comprehension with a constant test')
+                vals = []
+                for cond, br in ((c, e.elt.body), (z3.Not(c), e.elt.orelse)):
+                    m2 = len(st.pc)
+                    st.pc.append(cond)
+                    v = st.deref(ex.ev(br, st))
+                    added = st.pc[m2 + 1:]
+                    del st.pc[m2:]
+                    st.pc.extend(z3.Implies(cond, f) for f in added)
+                    vals.append(v)
+                added = st.pc[mark + 1:]
+                del st.pc[mark:]
+                a, b = vals
+                if not all(isinstance(v, VArr) and v.ndim == 3 and v.tag == 'core' and v.t is not None for v in vals):
+                    raise Unsupported('conditional comprehension whose branches are not cores with a denotation')
+                arr = ex.fresh('lc', T.TT)
+                used('[A if test else B for x in seq] -> element j is A_j if test_j else B_j')
+                st.assume(z3.ForAll([j], z3.Implies(guard, z3.And(*([arr[j] == z3.If(c, a.t, b.t)] + list(added)))), patterns=[arr[j]]))
+                return st.alloc(VSeq(arr, it.n, M.mk_core, 'core'))
+            finally:
+                for k in list(st.vars):
+                    if k not in saved:
+                        del st.vars[k]
+                    else:
+                        st.vars[k] = saved[k]
+    return _orig_listcomp(ex, st, e)
+
+
+M.listcomp = listcomp
+
+
+_orig_attribute = M.attribute
+
+
+def attribute(ex, st, v, attr, node):
+    if _on(ex) and isinstance(v, VOpt) and isinstance(st.deref(v.val), VArr):
+        ex.oblige(st, 'safety', 'attribute-of-not-None', z3.Not(v.isnone), node)
+        return _orig_attribute(ex, st, st.deref(v.val), attr, node)
+    return _orig_attribute(ex, st, v, attr, node)
+
+
+M.attribute = attribute
